@@ -19,6 +19,8 @@ def dispatch (line : String) : String :=
   | "C02" :: args => VtModel.PipeProto.handle args
   | "C08" :: args => VtModel.PipeProto.handle args
   | "C09" :: args => VtModel.PipeProto.handle args
+  | "C05" :: args => VtModel.Http.handle args
+  | s :: args => VtModel.Formats.handle s args   -- container-format streams (C16/C01); answers "bad-stream" itself
   | _ => "bad-stream"
 
 partial def loop (hin : IO.FS.Stream) (hout : IO.FS.Stream) : IO Unit := do
